@@ -4,14 +4,54 @@ import "bytes"
 
 // C12: string, rune and byte literals preserve their exact content.
 
-func H_C12_string() {
-	s := nondetString("s")
+func renderOne(c Code) (string, error) {
 	buf := &bytes.Buffer{}
 	f := NewFile("p")
-	err := Lit(s).render(f, buf, nil)
+	err := c.render(f, buf, nil)
+	return buf.String(), err
+}
+
+func H_C12_string() {
+	s := nondetString("s")
+	var st *Statement
+	if nondetChoice("form", 2) == 0 {
+		st = Lit(s)
+	} else {
+		st = LitFunc(func() interface{} { return s })
+	}
+	out, err := renderOne(st)
 	verifAssert(err == nil, "no error")
-	out := buf.String()
 	verifObserve("out", out)
 	verifAssert(specUnquotesTo(out, s), "literal unquotes to s")
-	verifAssert(verifMatch(out, `"([^"\\\n]|\\.)*"`), "one interpreted string token")
+	verifAssert(specOneToken(out, "STRING"), "one string token")
+}
+
+func H_C12_rune() {
+	r := nondetInt("r", 0, 0x10ffff)
+	verifAssume(r < 0xd800 || r > 0xdfff)
+	var st *Statement
+	if nondetChoice("form", 2) == 0 {
+		st = LitRune(rune(r))
+	} else {
+		st = LitRuneFunc(func() rune { return rune(r) })
+	}
+	out, err := renderOne(st)
+	verifAssert(err == nil, "no error")
+	verifObserve("out", out)
+	verifAssert(specRuneLitValue(out) == r, "rune literal denotes r")
+	verifAssert(specOneToken(out, "CHAR"), "one rune token")
+}
+
+func H_C12_byte() {
+	b := nondetInt("b", 0, 255)
+	var st *Statement
+	if nondetChoice("form", 2) == 0 {
+		st = LitByte(byte(b))
+	} else {
+		st = LitByteFunc(func() byte { return byte(b) })
+	}
+	out, err := renderOne(st)
+	verifAssert(err == nil, "no error")
+	verifObserve("out", out)
+	verifAssert(specUintConstIs(out, "uint8", uint64(b)), "constant of type byte with value b")
 }
